@@ -9,6 +9,8 @@ SMOKE = [
     ('ConstraintCollapse', 'MC_Collapse.cfg', None),
     ('ConstraintCollapse', 'MC_Collapse_prefix.cfg', 'NoGrowth'),
     ('MC_Calendar', 'MC_Calendar_smoke.cfg', None),
+    ('Tokenizer', 'MC_Tokenizer_smoke.cfg', None),
+    ('Trie', 'MC_Trie_smoke.cfg', None),
 ]
 
 
